@@ -642,7 +642,22 @@ def seq_parts(t):
     as [('item', x) | ('each', element term, iterable term)]; None when not
     recognised."""
     if t[0] == "list":
-        return [("item", x) for x in t[1]]
+        out = []
+        for x in t[1]:
+            if x[0] == "star":
+                # [a, *xs, b]: the elements of xs in place
+                inner = seq_parts(x[1]) if x[1][0] in (
+                    "list", "comp", "bin", "mut", "phi") else None
+                if inner is None and x[1][0] == "call" and x[1][1] in (
+                        "builtins.list", "builtins.tuple") and \
+                        len(x[1][2]) == 1:
+                    inner = seq_parts(x[1][2][0])
+                if inner is None:
+                    return None
+                out.extend(inner)
+            else:
+                out.append(("item", x))
+        return out
     if t[0] == "bin" and t[1] == "+":
         a, b = seq_parts(t[2]), seq_parts(t[3])
         return None if a is None or b is None else a + b
@@ -1152,16 +1167,30 @@ def align_positions(t):
         return t
     if t[0] == "zipelem" and len(t) == 3 and isinstance(t[1], int) and \
             t[1] < len(t[2]):
-        return ("sub", t[2][t[1]], POS)
-    if t[0] == "elem" and len(t) == 2:
+        out = ("sub", t[2][t[1]], POS)
+    elif t[0] == "elem" and len(t) == 2:
         it = t[1]
         if it[0] == "call" and it[1] == "builtins.enumerate" and it[2]:
             it = it[2][0]
-        return ("sub", it, POS)
-    if t[0] == "idx" and len(t) == 2:
+        out = ("sub", it, POS)
+    elif t[0] == "idx" and len(t) == 2:
         return POS
-    return tuple(align_positions(x) if isinstance(x, tuple) else x
-                 for x in t)
+    else:
+        out = tuple(align_positions(x) if isinstance(x, tuple) else x
+                    for x in t)
+    # range(n)[POS] is POS; range(a, b)[POS] is a + POS  (also list(range))
+    if out[0] == "sub" and len(out) == 3 and out[2] == POS:
+        r = out[1]
+        while r[0] == "call" and r[1] in ("builtins.list",
+                                          "builtins.tuple") and \
+                len(r[2]) == 1 and not r[3]:
+            r = r[2][0]
+        if r[0] == "call" and r[1] == "builtins.range" and not r[3]:
+            if len(r[2]) == 1:
+                return POS
+            if len(r[2]) == 2:
+                return ("bin", "+", r[2][0], POS)
+    return out
 
 
 def data_elem(it):
